@@ -430,3 +430,43 @@ fn complete_n1_qs() {
     assert!(verify_total_difficulty(se, c0, &t0, ee, cn, &t1, 2).is_ok(), "SPEC completeness: one-switch history rejected");
     kani::cover!(e1 > e0 && l0 != ln && i0 + 1 == l0, "difficulty increased across the switch, different epoch lengths, start at the last block of its epoch");
 }
+
+// ---------------------------------------------------------------------------------------------------
+// verify_tau is EXACT: across n >= 1 epoch switches Ok(b) with b == (end epoch difficulty within [start / tau^n, start * tau^n]) - epoch difficulty = block
+// difficulty x length of its OWN epoch; a later start epoch is an error; inside one epoch Ok(true) iff the compact targets agree
+// ---------------------------------------------------------------------------------------------------
+#[kani::proof]
+#[kani::unwind(5)]
+#[kani::stub(alloc::fmt::format, stub_format)]
+#[kani::stub(log::__private_api::log, stub_log)]
+#[kani::stub(numext_fixed_uint::U256::_div_with_rem, stub_div_with_rem)]
+#[kani::stub(ckb_types::utilities::compact_to_difficulty, stub_c2d)]
+fn vtau_exact_q() {
+    let a: u16 = kani::any(); let b: u16 = kani::any();
+    let b0 = U256([a as u64, 0, 0, 0]); let bn = U256([b as u64, 0, 0, 0]);
+    let c0: u32 = kani::any(); let cn: u32 = kani::any();
+    set_table(c0, &b0, &bn);
+    let bn_eff = if cn == c0 { b0.clone() } else { bn.clone() };
+    let se = wire_epoch(); let ee = wire_epoch();
+    // n <= 3 switches in either direction (loop bound)
+    kani::assume(ee.number().wrapping_sub(se.number()) <= 3 || se.number().wrapping_sub(ee.number()) <= 3);
+    let r = verify_tau(se, c0, ee, cn, 2);
+    if se.number() == ee.number() {
+        assert!(matches!(r, Ok(true)) == (c0 == cn) && (r.is_ok() || c0 != cn), "SPEC tau: inside one epoch verify_tau must be Ok(true) iff the compact targets agree (an error otherwise)");
+    } else if se.number() > ee.number() {
+        assert!(r.is_err(), "SPEC tau: a start epoch later than the end epoch was not rejected");
+    } else {
+        let n = ee.number() - se.number();
+        let (es, _) = b0.overflowing_mul(&U256::from(se.length()));
+        let (ed, _) = bn_eff.overflowing_mul(&U256::from(ee.length()));
+        let two = U256::from(2u64);
+        let mut up = es.clone(); let mut dn = es.clone();
+        let mut i = 0;
+        while i < n { up = up.saturating_mul(&two); dn = dn >> 1u8; i += 1; }
+        let within = ed <= up && ed >= dn;
+        match r { Ok(b) => assert!(b == within, "SPEC tau: verify_tau does not report exactly whether the epoch difficulty changed by at most tau per epoch"),
+                  Err(_) => assert!(false, "SPEC tau: verify_tau failed on ordered epochs") }
+        kani::cover!(within && n == 2 && se.length() != ee.length(), "two switches, different epoch lengths, within tau");
+        kani::cover!(!within && c0 == cn, "same compact target, epoch lengths too different");
+    }
+}
